@@ -76,3 +76,68 @@ func TestPropConcurrent(t *testing.T) {
 		}
 	})
 }
+
+// ------------------------------------------------------------------ long sequences, thousands of hits
+
+// A long template (tens of kilobases, as obipcr sees them) made of a short
+// repeated unit, so that a short permissive pattern matches at thousands of
+// positions: hit stacks, windows and offsets far from their first values.  The
+// case stays small (unit + repeat count); the check is the ordinary find check.
+type longCase struct {
+	Pattern string
+	Budget  int
+	Unit    string
+	Repeats int
+	Tail    string
+	Begin   int
+	Length  int
+}
+
+func init() {
+	evid.Reg("find_long", checkLong)
+	evid.Tests(evid.Spec{Name: "TestPropLongSequence", Kind: "rapid", Quick: 96, Thorough: 2400, QuickShards: 8, ThoroughShards: 16})
+}
+
+func (c longCase) find() findCase {
+	seq := ""
+	for i := 0; i < c.Repeats; i++ {
+		seq += c.Unit
+	}
+	return findCase{Pattern: c.Pattern, Budget: c.Budget, Seq: seq + c.Tail, Begin: c.Begin, Length: c.Length}
+}
+
+func checkLong(c longCase) error {
+	if err := checkFind(c.find()); err != nil {
+		s := err.Error()
+		if len(s) > 1800 {
+			s = s[:900] + " … " + s[len(s)-900:]
+		}
+		return fmt.Errorf("sequence = %q x %d + %q (%d symbols): %s", c.Unit, c.Repeats, c.Tail, len(c.Unit)*c.Repeats+len(c.Tail), s)
+	}
+	return nil
+}
+
+func TestPropLongSequence(t *testing.T) {
+	rapid.Check(t, func(rt *rapid.T) {
+		pattern, template := genPattern(rt, patOpts{lowComplx: true})
+		var c longCase
+		c.Pattern = pattern
+		c.Budget = drawBudget(rt)
+		// the unit holds (a mutated copy of) the template so that hits recur every len(unit) positions
+		unit, _ := plant(rt, template, c.Budget, "s", 6, true)
+		c.Unit = unit
+		total := rapid.SampledFrom([]int{5000, 20000, 70000, 140000}).Draw(rt, "total_len")
+		c.Repeats = max(1, total/max(1, len(unit)))
+		c.Tail, _ = plant(rt, template, c.Budget, "s", 3, true)
+		n := len(unit)*c.Repeats + len(c.Tail)
+		c.Begin, c.Length = 0, -1
+		if rapid.IntRange(0, 2).Draw(rt, "window") == 0 {
+			c.Begin = rapid.IntRange(0, n-1).Draw(rt, "begin")
+			c.Length = rapid.IntRange(1, n-c.Begin).Draw(rt, "length")
+		}
+		evid.Eval("find_long", evid.Hash(fmt.Sprintf("%+v", c)), c.Repeats >= 100, c, "find:sequence>=5000", fmt.Sprintf("find:total_len:%d", total))
+		if err := checkLong(c); err != nil {
+			evid.Fail(rt, "find_long", c, err)
+		}
+	})
+}
